@@ -1,3 +1,4 @@
+pub mod fake;
 pub mod model;
 pub mod oracle;
 pub mod run;
@@ -138,6 +139,8 @@ impl World for AgentWorld {
         out.count("fault.peer_close_write", h.sent.iter().filter(|s| matches!(s.op, scenario::Op::CloseWrite)).count() as u64);
         out.count("fault.store_fault_fired", rec.store_fault_fired as u64);
         out.count("fault.crash", rec.crash_step.is_some() as u64);
+        out.count("fault.lane_failed", rec.truth.iter().flatten().filter(|(_, e)| matches!(e, model::TruthEv::LaneFailed { .. })).count() as u64);
+        out.count("probe.sleep_ops", h.sent.iter().filter(|s| matches!(s.op, scenario::Op::Sleep { .. })).count() as u64);
         out.count("fault.stop_midstream", matches!(sc.ending, Ending::StopAt(_)) as u64 * rec.stop_step.is_some() as u64);
         out.count("fault.clock_advance", rec.time_advances);
         out.count("end.timeout", (matches!(sc.ending, Ending::Timeout) && rec.quiescent_step.is_some()) as u64);
